@@ -23,9 +23,65 @@ TERMS = ["*/", "-->", "#}", "*)", "--%>", "--}}", ":)", "=#", "}", "'/", "*#", '
 LICENCE_TEXT = "Permission is hereby granted.\n"
 
 
-def gen_tree(seed, kind):
+# how LICENSES/ provides the identifier X of which some files use `X+` and others `X`
+PLUS_MODES = ["plus-only", "plain-only", "both", "none"]
+PLUS_IDS = ["LGPL-2.1", "Apache-1.0", "EUPL-1.2", "AGPL-3.0", "GPL-1.0", "MPL-1.1", "GFDL-1.3"]
+# top-level directory names on either side of '.' and '/' in code-point order (the root REUSE.toml's directory is spelt `.`, a
+# nested one `name`, a path `name/…`), and on either side of 'R' (REUSE.toml)
+ODD_LOW = [" spaced", "!a", "#tmp", "$d", "%p", "&e", "'q", "(third-party)", "+vendor", ",c", "-x", "+", "-", "!"]
+ODD_HIGH = [".dot", "0num", ":c", ";s", "=e", "@at", "Q1", "REUSE", "S1", "Zed", "_u", "a0", "~t", "\u00e9tage"]
+TOML_KINDS = ("toml", "toml-partial", "subprojects-root", "git", "git-submodule")
+
+
+def gen_tree(seed, kind, plus=None):
     """-> (root directory name, {relative path: str|bytes}).  kind: toml | toml-partial | dep5 | plain | subprojects-root | git |
-    git-submodule (the files of the submodules come from gen_submodules)"""
+    git-submodule (the files of the submodules come from gen_submodules); plus: one of PLUS_MODES (None: drawn)"""
+    name, files = _gen_tree_base(seed, kind)
+    # additions drawn from a generator of their own, so that the trees of earlier revisions stay what they were
+    rng = random.Random("c14-tree-extra:%s:%s" % (seed, kind))
+    mode = plus if plus is not None else rng.choice(PLUS_MODES)
+    x = rng.choice(PLUS_IDS)
+    if mode in ("plus-only", "both"):
+        files["LICENSES/%s+.txt" % x] = LICENCE_TEXT
+    if mode in ("plain-only", "both"):
+        files["LICENSES/%s.txt" % x] = LICENCE_TEXT
+    tags = [x + "+"] * rng.randint(1, 2) + [x] * rng.randint(1, 2)
+    rng.shuffle(tags)
+    for j, tag in enumerate(tags):
+        d = rng.choice(["", "", "src", "src/deep", "lib", "docs"])
+        expr = tag if rng.random() < 0.7 else rng.choice(["%s OR MIT", "MIT AND %s", "(%s)"]) % tag
+        files["%spf%d.py" % (d + "/" if d else "", j)] = "# SPDX-FileCopyrightText: 2020 Jane Doe\n# SPDX-License-Identifier: %s\n" % expr
+    if kind in TOML_KINDS:
+        odd = [rng.choice(ODD_LOW), rng.choice(ODD_LOW + ODD_HIGH + ODD_HIGH)]
+        r = rng.random()
+        if r < 0.35:
+            odd.append("src/" + rng.choice(ODD_LOW + ODD_HIGH))
+        elif r < 0.55:
+            odd.append(odd[0] + "/" + rng.choice(ODD_LOW))
+        for i, d in enumerate(dict.fromkeys(odd)):
+            lic = rng.choice(["MIT", "GPL-3.0-or-later", "Apache-2.0"])
+            for f in ("a.txt", "b.txt", "in/c.py"):
+                files["%s/%s" % (d, f)] = "no information here\n"
+            if kind == "toml-partial":
+                half = rng.choice(["cpr", "lic", "both", "both"])
+                files[d + "/REUSE.toml"] = (
+                    'version = 1\n\n[[annotations]]\npath = "**"\nprecedence = "closest"\n%s%s'
+                    % ('SPDX-FileCopyrightText = "2012 Odd %d"\n' % i if half in ("cpr", "both") else "",
+                       'SPDX-License-Identifier = "%s"\n' % lic if half in ("lic", "both") else ""))
+            else:
+                # a.txt: closest here, b.txt: override here - each against whatever the outer REUSE.toml says about **/*.txt
+                files[d + "/REUSE.toml"] = (
+                    'version = 1\n\n[[annotations]]\npath = "a.txt"\nprecedence = "closest"\n'
+                    'SPDX-FileCopyrightText = "2012 Odd %d"\nSPDX-License-Identifier = "%s"\n\n'
+                    '[[annotations]]\npath = "b.txt"\nprecedence = "override"\n'
+                    'SPDX-FileCopyrightText = "2013 Odd %d"\nSPDX-License-Identifier = "%s"\n\n'
+                    '[[annotations]]\npath = "**/*.py"\nprecedence = "%s"\n'
+                    'SPDX-FileCopyrightText = "2014 Odd %d"\nSPDX-License-Identifier = "%s"\n'
+                    % (i, lic, i, lic, rng.choice(["closest", "aggregate", "override"]), i, lic))
+    return name, files
+
+
+def _gen_tree_base(seed, kind):
     rng = random.Random("c14-tree:%s:%s" % (seed, kind))
     files = {}
     lic_used = ["MIT", "GPL-3.0-or-later", "Apache-2.0", "LicenseRef-custom"]
